@@ -2,9 +2,12 @@
 
 proof      : Properties/C01.v — every modelled construction / search step (accepted insertion, removal under the triangle
              inequality) keeps each tour `Feasible.feasible` (time windows incl. the shift end, capacity at every point).
-oracle     : the SAME `Feasible.feasible` (plus skills, tour limits, shift start, end location) evaluated inside Coq on the tours
-             rebuilt from every solution document the REAL solver returns (Valid.feasible_viols), for generated problems under a
-             matrix of configurations: generations, thread-pool layouts (this is also the second clause of C15), quota firing points.
+oracle     : the SAME `Feasible.feasible` (plus skills allOf/oneOf/noneOf, tour limits, shift start, end location, compatibility,
+             groups, reachability (errorCodes), capacity in every further dimension) evaluated inside Coq on the tours rebuilt
+             from every solution document the REAL solver returns (Valid.feasible_viols ++ Valid.xfeasible_viols), for generated
+             problems under a matrix of configurations: generations, thread-pool layouts (also the second clause of C15), quota
+             firing points.  For problems with errorCodes the harness also returns PURE-CONSTRUCTION documents (insertion-only runs
+             of the real heuristics): they are checked the same way and tell a leg accepted by an insertion from one left by a removal.
 """
 import hashlib
 import json
@@ -19,14 +22,18 @@ SHARD = 24
 SIZES = {'quick': 420, 'thorough': 4200, 'search': 1800}
 RULE = ('cases: generated pragmatic problems (3-10 jobs: deliveries, pickups, services, shipments, multi jobs; 1-2 places / windows; '
         '1-3 vehicle types x 1-2 ids x 1-2 shifts, open and closed ends; capacity, skills, maxDistance / maxDuration / tourSize limits; '
+        'additive features, each in about 1/3 of the problems and freely combined: job compatibility classes mixed with plain jobs, job '
+        'groups, matrix errorCodes (asymmetric / symmetric / a location that cannot be left or entered), 2-3 capacity dimensions, skills '
+        'oneOf / noneOf; '
         'metric and non-metric integer matrices incl. the "cheap chain, expensive shortcut" shape) x 3 configurations each '
         '(max_generations 0-20, Parallelism none/(1,1)/(2,2), outer threads 1-2, quota firing after 0-89 polls or never). '
         'non-trivial = distinct (problem, document) whose document has a tour with >= 2 jobs or a binding constraint (an unassigned job).')
 TRUSTED = ['rendering of the JSON documents into the reduced Coq types and the rebuilding of Core activities from a reported tour '
            '(tools/props/e2e.py, Spec/Valid.v tour_acts / match_act): an activity is attributed to the job task place by location, duration and window',
            'real thread interleavings are sampled (three layouts), not enumerated']
-ASSUMPTIONS = ['problem fragment without breaks, reloads, recharges, relations (locks), groups, compatibility, tour order, clustering: those '
-               'constraints are not exercised by this check', 'time-independent routing']
+ASSUMPTIONS = ['problem fragment without breaks, reloads, recharges, relations (locks), tour order, job value, clustering: those '
+               'constraints are not exercised by this check', 'time-independent routing',
+               'groups: checked rule = all ASSIGNED jobs of a group are in one tour (the documentation\'s "or left unassigned" is read per job)']
 
 
 def generate(rng, tier, n):
@@ -37,12 +44,25 @@ def _sol(impl):
     return impl.get('solution') if e2e.outcome(impl) == 'solution' else None
 
 
+def constructed_docs(c, impl):
+    """[(method, document)] of the pure-construction documents the harness produced (config.construct), renderable ones only"""
+    out = []
+    for x in (impl or {}).get('constructed') or []:
+        if isinstance(x, dict) and isinstance(x.get('solution'), dict) and not e2e.unsupported(c, x['solution']):
+            out.append((x.get('method'), x['solution']))
+    return out
+
+
 def model_term(c, impl):
+    """(violations of the returned document, [violations of every pure-construction document])"""
     s = _sol(impl)
     if s is None or e2e.unsupported(c, s):
-        return '(@nil violation)'
+        return '(@nil violation, @nil (list violation))'
     ids = e2e.Ids(c)
-    return '(let P := %s in let S := %s in (precond_viol P ++ feasible_viols P S))' % (e2e.g_problem(c, ids), e2e.g_solution(c, s, ids))
+    cons = ['(feasible_viols P %s ++ xfeasible_viols P %s)' % (g, g)
+            for g in [e2e.g_solution(c, d, ids) for _, d in constructed_docs(c, impl)]]
+    return '(let P := %s in let S := %s in (precond_viol P ++ feasible_viols P S ++ xfeasible_viols P S, [%s]))' % (
+        e2e.g_problem(c, ids), e2e.g_solution(c, s, ids), '; '.join(cons))
 
 
 def compare(c, impl, model):
@@ -51,7 +71,9 @@ def compare(c, impl, model):
 
 CLASS = {'FNoTour': 'tour-not-rebuildable', 'FInfeasible': 'tour-infeasible', 'FSkills': 'skills-violated',
          'FMaxDistance': 'max-distance-exceeded', 'FMaxDuration': 'max-duration-exceeded', 'FTourSize': 'tour-size-exceeded',
-         'FShiftStart': 'departure-outside-shift-start', 'FEndLocation': 'wrong-end-location'}
+         'FShiftStart': 'departure-outside-shift-start', 'FEndLocation': 'wrong-end-location',
+         'FCompatibility': 'compatibility-classes-mixed-in-tour', 'FGroup': 'group-split-over-tours',
+         'FUnreachable': 'unreachable-leg', 'FCapacityDim': 'capacity-exceeded-in-extra-dimension'}
 
 
 def oracle(c, impl):
@@ -67,7 +89,25 @@ def oracle_model(c, impl, model):
         return []
     out = []
     m = c['matrices'][0]
-    for t in e2e.coq_viols(model, 'F'):
+    if isinstance(model, tuple) and len(model) == 2 and not (model and isinstance(model[0], str)):
+        main, cons = model
+    else:                                   # callers that evaluated valid_b themselves (C07) pass the plain violation list
+        main, cons = model, None
+    # pure-construction documents: insertion-only runs of the real heuristics (no ruin, no removal).  A hard-rule violation
+    # there cannot be blamed on an unguarded removal: the insertion-time constraint itself let it through.
+    docs = constructed_docs(c, impl)
+    cons_bad = False
+    if cons is not None:
+        for (method, _), vs in zip(docs, cons):
+            for t in e2e.coq_viols(vs, 'F'):
+                cons_bad = cons_bad or t[0] == 'FUnreachable'
+                out.append({'class': 'construction:' + CLASS.get(t[0], t[0]),
+                            'what': 'pure construction (%s, insertions only) violates %s %s' % (method, t[0], list(t[1:]))})
+    else:
+        # no Coq verdict on the construction documents at hand (caller evaluated valid_b on the returned one only): python twin
+        cons = [[('FUnreachable',) + x for x in e2e.unreachable_legs(c, d)] for _, d in docs]
+        cons_bad = any(cons)
+    for t in e2e.coq_viols(main, 'F'):
         name, arg = t[0], (t[1] if len(t) > 1 else None)
         cls = CLASS.get(name, name)
         tour = s['tours'][arg] if isinstance(arg, int) and 0 <= arg < len(s['tours']) else None
@@ -82,7 +122,12 @@ def oracle_model(c, impl, model):
             cls = 'max-distance-exceeded-nonmetric-matrix'
         elif name in ('FMaxDuration', 'FInfeasible') and violates_triangle(m['travelTimes']):
             cls = CLASS[name] + '-nonmetric-matrix'
-        out.append({'class': cls, 'what': '%s %s (tour index / detail)' % (name, arg)})
+        elif name == 'FUnreachable' and docs and len(docs) == len(cons) and not cons_bad:
+            # every insertion is gated by ReachableConstraint (both legs next to the inserted activity); the pure-construction
+            # documents of this very problem have no unreachable leg, so the leg was not accepted by an insertion: it is
+            # what a removal left behind (finding C01-F4).  See notes/C01.md for what this class can hide.
+            cls = 'unreachable-leg-absent-from-pure-construction'
+        out.append({'class': cls, 'what': '%s %s (tour index, detail)' % (name, list(t[1:]))})
     return out
 
 
@@ -119,6 +164,17 @@ def classify(c, impl):
         tours, un = e2e.doc_summary(s)
         labs.append('tours=%d' % len(tours))
         labs.append('max_tour_jobs=%d' % max([len(t) for t in tours] + [0]))
+    for f in (c.get('meta') or {}).get('features') or []:
+        labs.append('feature=' + f)
+    if s is not None and e2e.unsupported(c, s):
+        labs.append('skipped-not-renderable=' + str(e2e.unsupported(c, s))[:40])
+    if s is not None:
+        jobs = {j['id']: j for j in c['problem']['plan']['jobs']}
+        for t in s['tours']:
+            ids = [a['jobId'] for st in t['stops'] for a in st['activities'] if a.get('jobId') in jobs]
+            if any('compatibility' in jobs[i] for i in ids) and any('compatibility' not in jobs[i] for i in ids):
+                labs.append('tour-mixes-compat-and-plain-jobs')
+                break
     return labs
 
 
@@ -132,10 +188,12 @@ except Exception:  # noqa
 MANIFEST_TEXT = ('Machine-checked proof (Coq, no axioms) over the executable model of the insertion evaluator, the cached tour state and '
                  'the schedule refresh: every accepted insertion keeps the tour feasible for the independent simulation (any matrix), so does '
                  'any construction history; any search history of accepted insertions and removals does when durations satisfy the triangle '
-                 'inequality (witness theorem that it fails otherwise). The same `feasible` predicate, plus skills / limits / shift start / end '
-                 'location checks, is evaluated inside Coq on every tour of every solution document the real solver returns for generated '
-                 'problems under a matrix of configurations (generations, thread-pool layouts, quota firing points).')
+                 'inequality (witness theorem that it fails otherwise). The same `feasible` predicate, plus skills (allOf/oneOf/noneOf) / '
+                 'limits / shift start / end location / compatibility / group / reachability / capacity-in-every-dimension checkers (each '
+                 'proved sound and complete for its declarative statement), is evaluated inside Coq on every tour of every solution document '
+                 'the real solver returns for generated problems under a matrix of configurations (generations, thread-pool layouts, quota '
+                 'firing points). Reachability: a gated insertion keeps every leg reachable (theorem), a removal does not (witness).')
 MANIFEST_NOTE = ('Trusted: Coq kernel + vm_compute; JSON->Gallina rendering and the rebuilding of activities from the document; harness. '
                  'The tie between the evaluator model and the code is the C06 correspondence (run by `./check C06`). Not covered: breaks, reloads, '
-                 'recharge, relations/locks, groups, compatibility, tour order, clustering, time-dependent routing; real interleavings only sampled.')
+                 'recharge, relations/locks, tour order, job value, clustering, time-dependent routing; real interleavings only sampled.')
 MANIFEST_TECHNIQUE = 'Coq proof (feasibility invariant over insertion/removal histories) + verified feasibility checker run on real solver output'
